@@ -361,7 +361,7 @@ package backend
 //@ ghost backend_writes Int
 //@ ghost backend_reads Int
 // the last request handed to the backend through the interface, its kind (1 create, 2 update,
-// 3 delete, 4 get) and its answer (C16: response shaping in the etcd shim)
+// 3 delete, 4 get, 5 list, 6 count) and its answer (C16: response shaping in the etcd shim)
 //@ ghost be_op Int
 //@ ghost be_req Ref
 //@ ghost be_resp Ref
@@ -404,13 +404,15 @@ package backend
 //@ func Backend.List(ctx, r) (resp, err)
 //@   assumed
 //@   requires [after-sync] synced
-//@   modifies ghost.backend_reads
+//@   modifies ghost.backend_reads ghost.be_op ghost.be_req ghost.be_resp ghost.be_err
 //@   ensures [counted] backend_reads == old(backend_reads)+1
+//@   ensures [recorded] be_op == 5 && be_req == r && be_resp == resp && be_err == err && (err == nil ==> resp != nil && resp.Header != nil && forall(i, 0 <= i && i < len(resp.Kvs), resp.Kvs[i] != nil))
 //@ func Backend.Count(ctx, r) (resp, err)
 //@   assumed
 //@   requires [after-sync] synced
-//@   modifies ghost.backend_reads
+//@   modifies ghost.backend_reads ghost.be_op ghost.be_req ghost.be_resp ghost.be_err
 //@   ensures [counted] backend_reads == old(backend_reads)+1
+//@   ensures [recorded] be_op == 6 && be_req == r && be_resp == resp && be_err == err && (err == nil ==> resp != nil && resp.Header != nil)
 //@ func Backend.GetPartitions(ctx, r) (resp, err)
 //@   assumed
 //@   requires [after-sync] synced
